@@ -454,6 +454,28 @@ class Body:
         region.discard(bb) if False else None
         return region, j
 
+    def natural_loop(self, header):
+        """Natural loop of `header`: for every back edge t -> header (header dominates t), the
+        header plus all blocks that reach t without passing through the header."""
+        live = self.live_blocks
+        tails = [t for t in self.pred[header] if t in live and self.dominates(header, t)]
+        if not tails:
+            return set()
+        loop = {header}
+        work = list(tails)
+        while work:
+            x = work.pop()
+            if x in loop:
+                continue
+            loop.add(x)
+            for p in self.pred[x]:
+                if p in live and p not in loop:
+                    work.append(p)
+        return loop
+
+    def loop_exits(self, loop):
+        return [(u, v) for u in sorted(loop) for v in self.succ[u] if v not in loop]
+
     def edge_guards(self, edge, bb):
         """True iff every entry->bb path uses CFG edge `edge`=(from,to)."""
         if bb not in self.live_blocks:
